@@ -13,9 +13,9 @@ mv $demofile /tmp/zz_demo_hold.go
 suite=$(go test -vet=off -count=1 ./... 2>&1 | grep -v "^ok\|no test files" | grep -v "net/oneway" | head -5)
 mv /tmp/zz_demo_hold.go $demofile
 d1=$(cd $w && eval "$demo" 2>&1 | tail -3)
-git stash push -q -- $(git diff --name-only) 
+git apply -R SEED_patch.diff
 d2=$(cd $w && eval "$demo" 2>&1 | tail -1)
-git stash pop -q
+git apply SEED_patch.diff
 mkdir -p /verif/seeded/$id
 cp SEED_patch.diff /verif/seeded/$id/patch.diff
 cp $demofile /verif/seeded/$id/demo_test.go.txt
